@@ -233,7 +233,7 @@ theorem handoff_is_seamless (cfg : Forkable.Config) (hnew : cfg.matches .new = t
       c0.run (pre ++ burst ++ (runHistory cfg s hist).2) =
         some ⟨(runHistory cfg s hist).1.db.libRef.id, P'⟩ ∧
       Inv (runHistory cfg s hist).1 P' := by
-  obtain ⟨K, PE, hseg, hP, hPE, hK, hlast⟩ := headSegment_shape s P hI h seg hs hnum
+  obtain ⟨K, PE, hseg, hP, hPE, hK, hlast, _⟩ := headSegment_shape s P hI h seg hs hnum
   let p : Entry → Bool := fun e => e.blk.num != n
   -- the requested block is among the retained final blocks
   have hinK : ∃ k ∈ K, p k = false := by
